@@ -199,13 +199,8 @@ func c06R2(c *Ctx) {
 	}
 	// roles
 	doReject := findFuncSetting(p, p.Tag("tagRefSeqNum"))
-	var logoutInit *ssa.Function
-	for _, fn := range p.FuncsIn(modPath) {
-		if fn.Name() == "initiateLogout" {
-			logoutInit = fn
-		}
-	}
-	if doReject == nil || logoutInit == nil {
+	logoutInits := p.logoutInitiators()
+	if doReject == nil || len(logoutInits) == 0 {
 		c.Undecided(FuncName(proc), "-", "roles", "reject sender / logout initiator not found")
 		return
 	}
@@ -228,11 +223,11 @@ func c06R2(c *Ctx) {
 				case cal == nil:
 				case cal == doReject:
 					eff = append(eff, "reject")
-				case cal == logoutInit || cal.Name() == "initiateLogoutInReplyTo":
+				case containsFn(logoutInits, cal):
 					eff = append(eff, "logout")
-				case cal.Name() == "handleStateError":
+				case p.isStateErrorExit(cal):
 					stateErr = true
-				case cal.Name() == "doTargetTooLow" || cal.Name() == "doTargetTooHigh":
+				case argIsTypedSeqError(p, cl):
 					tailCall = cal
 				}
 			}
@@ -297,12 +292,7 @@ func c06R2(c *Ctx) {
 		}
 	}
 	// too-low handler: without PossDup → [logout], no advance anywhere in it
-	var tooLowH *ssa.Function
-	for _, fn := range p.FuncsIn(modPath) {
-		if fn.Name() == "doTargetTooLow" {
-			tooLowH = fn
-		}
-	}
+	tooLowH := tooLowHandler(p, proc)
 	if tooLowH == nil {
 		c.Undecided("", "-", "no-toolow-handler", "too-low handler not found")
 		return
@@ -349,7 +339,7 @@ func findFuncSetting(p *Prog, tag int64) *ssa.Function {
 
 func c06R3(c *Ctx) {
 	p := c.P
-	rr := p.Method(modPath, "Message", "reverseRoute")
+	rr := p.reverseRouteFn()
 	pairs := map[[2]int64]bool{}
 	for _, f := range WithClosures(rr) {
 		for _, cl := range Calls(f) {
@@ -497,7 +487,7 @@ func c06R5(c *Ctx) {
 		return
 	}
 	name := FuncName(fn)
-	rr := p.Method(modPath, "Message", "reverseRoute")
+	rr := p.reverseRouteFn()
 	var reply *Org
 	for _, st := range p.setTagCalls(fn, t45) {
 		vo := p.ContentOrigin(st.val)
@@ -537,4 +527,34 @@ func keys64(m map[int64]bool) []int64 {
 	}
 	sort.Slice(out, func(i, j int) bool { return out[i] < out[j] })
 	return out
+}
+
+// argIsTypedSeqError: the call hands over the type-asserted too-low / too-high error.
+func argIsTypedSeqError(p *Prog, cl ssa.CallInstruction) bool {
+	for _, a := range cl.Common().Args {
+		o := p.Origin(a)
+		if o.Kind == "typeassert" && o.Res == 0 {
+			tn := typeName(o.AssTyp)
+			if tn == "targetTooLow" || tn == "targetTooHigh" {
+				return true
+			}
+		}
+	}
+	return false
+}
+
+// tooLowHandler: the callee of the reject processor that receives the asserted targetTooLow.
+func tooLowHandler(p *Prog, proc *ssa.Function) *ssa.Function {
+	for _, cl := range Calls(proc) {
+		cal := cl.Common().StaticCallee()
+		if cal == nil {
+			continue
+		}
+		for _, a := range cl.Common().Args {
+			if o := p.Origin(a); o.Kind == "typeassert" && o.Res == 0 && typeName(o.AssTyp) == "targetTooLow" {
+				return cal
+			}
+		}
+	}
+	return nil
 }
